@@ -633,6 +633,46 @@ def run(ctx, rep):
                 unit = any(c[2] == "unit" for c in calls_in(x) + calls_in(y))
                 if unit and flow.flows_to_branch(f, cs.dest[0]):
                     got.add(side)
+        if not got:
+            # `[(source, hint), (target, hint)].into_iter().try_for_each(|(ty, hint)| ctx.unify(ty, &unit, hint))`
+            def _arrays(t, out):
+                if isinstance(t, tuple) and t:
+                    if t[0] == "array":
+                        out.append(t)
+                    for y in t[1:]:
+                        if isinstance(y, tuple):
+                            if y and isinstance(y[0], tuple):
+                                for z in y:
+                                    _arrays(z, out)
+                            else:
+                                _arrays(y, out)
+            for ad in f.calls():
+                if ad.name not in ("try_for_each", "try_fold") or len(ad.args) < 2:
+                    continue
+                cl = [c for c in F.closures_of(f) if any(cs.callee == CTX + "unify" for cs in c.calls())]
+                ct = T.operand(ad.args[-1])
+                if not cl or not (isinstance(ct, tuple) and ct and ct[0] == "closure" and ct[1] == cl[0].path):
+                    continue
+                c = cl[0]
+                Tc = Terms(c)
+                env = fm.closure_env(F, c)
+                ok_c = False
+                for cs in c.calls():
+                    if cs.callee == CTX + "unify":
+                        x, y = Tc.operand(cs.args[1]), fm.subst_env(Tc.operand(cs.args[2]), env)
+                        from_item = any(l[0] == "parampath" and l[1] == 2 for l in leaves(x)) or any(l[0] == "param" and l[1] == 2 for l in leaves(x))
+                        unit = any(k[2] == "unit" for k in calls_in(y))
+                        ok_c = from_item and unit
+                ret_ok = vcc.param_roots(T.local(0), fm) is not None and (flow.flows_to_branch(f, ad.dest[0]) or ad.dest[0] == 0)
+                arrs = []
+                _arrays(T.operand(ad.args[0]), arrs)
+                if ok_c and ret_ok and len(arrs) == 1:
+                    for el in arrs[0][1]:
+                        r_ = repr(el)
+                        if "'source'" in r_:
+                            got.add("source")
+                        if "'target'" in r_:
+                            got.add("target")
         if got == {"source", "target"}:
             rep.ok("C04.root", "set_arrow_to_program", "unify(source, unit)?; unify(target, unit)?")
         else:
